@@ -132,23 +132,23 @@ def readEval (path : Bool) : Nat → Bool → Str → EvalStr → Except PErr (E
     | c :: r => readEval path fuel false r (.lit c :: acc)
 
 /-- `Lexer::ReadPath` (+ the trailing `EatWhitespace`) -/
-def readPath (s : Str) : Except PErr (EvalStr × Str) :=
-  match readEval true (s.length + 1) false s [] with
+def readPath (n : Nat) (s : Str) : Except PErr (EvalStr × Str) :=
+  match readEval true n false s [] with
   | .ok (e, r) => .ok (e, eatWs r)
   | .error e => .error e
 
 /-- `Lexer::ReadVarValue` -/
-def readValue (s : Str) : Except PErr (EvalStr × Str) :=
-  readEval false (s.length + 1) false s []
+def readValue (n : Nat) (s : Str) : Except PErr (EvalStr × Str) :=
+  readEval false n false s []
 
-/-- paths up to the first empty one -/
-def readPaths : Nat → Str → List EvalStr → Except PErr (List EvalStr × Str)
+/-- paths up to the first empty one (`n` = bound on the length of the whole text, see `parse`) -/
+def readPaths (n : Nat) : Nat → Str → List EvalStr → Except PErr (List EvalStr × Str)
   | 0, _, _ => .error .fuel
   | fuel + 1, s, acc =>
-    match readPath s with
+    match readPath n s with
     | .error e => .error e
     | .ok ([], r) => .ok (acc.reverse, r)
-    | .ok (p, r) => readPaths fuel r (p :: acc)
+    | .ok (p, r) => readPaths n fuel r (p :: acc)
 
 inductive Tok where
   | eof | newline | indent | ident (s : Str) | equals | colon | pipe | pipe2 | pipeAt | bad
@@ -181,116 +181,118 @@ def readToken : Nat → Str → Tok × Str
         (.ident n, eatWs r)
       else (.bad, s)
 
-def tok (s : Str) : Tok × Str := readToken (s.length + 1) s
+def tok (n : Nat) (s : Str) : Tok × Str := readToken n s
 
 /-- `ParseLet` after the INDENT / at top level: `ident = value` -/
-def parseLet (s : Str) : Except PErr ((Str × EvalStr) × Str) :=
-  match tok s with
+def parseLet (n : Nat) (s : Str) : Except PErr ((Str × EvalStr) × Str) :=
+  match tok n s with
   | (.ident k, r) =>
-    match tok r with
+    match tok n r with
     | (.equals, r') =>
-      match readValue r' with
+      match readValue n r' with
       | .ok (v, r'') => .ok ((k, v), r'')
       | .error e => .error e
     | _ => .error .expectedEquals
   | _ => .error .expectedIdent
 
 /-- the indented bindings of a block -/
-def parseBinds : Nat → Str → List (Str × EvalStr) → Except PErr (List (Str × EvalStr) × Str)
+def parseBinds (n : Nat) : Nat → Str → List (Str × EvalStr) → Except PErr (List (Str × EvalStr) × Str)
   | 0, _, _ => .error .fuel
   | fuel + 1, s, acc =>
-    match tok s with
+    match tok n s with
     | (.indent, r) =>
-      match parseLet r with
-      | .ok (kv, r') => parseBinds fuel r' (kv :: acc)
+      match parseLet n r with
+      | .ok (kv, r') => parseBinds n fuel r' (kv :: acc)
       | .error e => .error e
     | _ => .ok (acc.reverse, s)
 
 def kw (s : String) : Str := s.toList
 
 /-- optional group introduced by token `t` -/
-def optGroup (t : Tok) (s : Str) : Except PErr (List EvalStr × Str) :=
-  match tok s with
-  | (t', r) => if t' = t then readPaths (r.length + 1) r [] else .ok ([], s)
+def optGroup (n : Nat) (t : Tok) (s : Str) : Except PErr (List EvalStr × Str) :=
+  match tok n s with
+  | (t', r) => if t' = t then readPaths n n r [] else .ok ([], s)
 
-def expectNewline (s : Str) : Except PErr Str :=
-  match tok s with
+def expectNewline (n : Nat) (s : Str) : Except PErr Str :=
+  match tok n s with
   | (.newline, r) => .ok r
   | _ => .error .expectedNewline
 
 /-- `ManifestParser::ParseEdge` (syntax part) -/
-def parseEdge (s : Str) : Except PErr (BuildSyn × Str) := do
-  let (outs, s) ← readPaths (s.length + 1) s []
-  let (iouts, s) ← optGroup .pipe s
+def parseEdge (n : Nat) (s : Str) : Except PErr (BuildSyn × Str) := do
+  let (outs, s) ← readPaths n n s []
+  let (iouts, s) ← optGroup n .pipe s
   if outs.isEmpty && iouts.isEmpty then throw .expectedPath
-  let s ← (match tok s with
+  let s ← (match tok n s with
     | (.colon, r) => pure r
     | _ => throw PErr.expectedColon)
-  let (rule, s) ← (match tok s with
-    | (.ident n, r) => pure (n, r)
+  let (rule, s) ← (match tok n s with
+    | (.ident nm, r) => pure (nm, r)
     | _ => throw PErr.expectedRuleName)
-  let (ins, s) ← readPaths (s.length + 1) s []
-  let (impl, s) ← optGroup .pipe s
-  let (oo, s) ← optGroup .pipe2 s
-  let (vals, s) ← optGroup .pipeAt s
-  let s ← expectNewline s
-  let (binds, s) ← parseBinds (s.length + 1) s []
+  let (ins, s) ← readPaths n n s []
+  let (impl, s) ← optGroup n .pipe s
+  let (oo, s) ← optGroup n .pipe2 s
+  let (vals, s) ← optGroup n .pipeAt s
+  let s ← expectNewline n s
+  let (binds, s) ← parseBinds n n s []
   return ({ outs := outs, implOuts := iouts, rule := rule, ins := ins, implIns := impl,
             orderIns := oo, vals := vals, binds := binds }, s)
 
-def parseNamedBlock (s : Str) : Except PErr ((Str × List (Str × EvalStr)) × Str) := do
-  let (name, s) ← (match tok s with
-    | (.ident n, r) => pure (n, r)
+def parseNamedBlock (n : Nat) (s : Str) : Except PErr ((Str × List (Str × EvalStr)) × Str) := do
+  let (name, s) ← (match tok n s with
+    | (.ident nm, r) => pure (nm, r)
     | _ => throw PErr.expectedIdent)
-  let s ← expectNewline s
-  let (binds, s) ← parseBinds (s.length + 1) s []
+  let s ← expectNewline n s
+  let (binds, s) ← parseBinds n n s []
   return ((name, binds), s)
 
 /-- `ManifestParser::Parse` (syntax part): the statement list -/
-def parseTop : Nat → Str → List Stmt → Except (PErr × Nat) (List Stmt)
+def parseTop (n : Nat) : Nat → Str → List Stmt → Except (PErr × Nat) (List Stmt)
   | 0, s, _ => .error (.fuel, s.length)
   | fuel + 1, s, acc =>
     let fail {β} (e : PErr) : Except (PErr × Nat) β := .error (e, s.length)
-    match tok s with
+    match tok n s with
     | (.eof, _) => .ok acc.reverse
-    | (.newline, r) => parseTop fuel r acc
+    | (.newline, r) => parseTop n fuel r acc
     | (.indent, _) => fail .unexpectedIndent
-    | (.ident n, r) =>
-      if n = kw "build" then
-        match parseEdge r with
-        | .ok (b, r') => parseTop fuel r' (.build b :: acc)
+    | (.ident w, r) =>
+      if w = kw "build" then
+        match parseEdge n r with
+        | .ok (b, r') => parseTop n fuel r' (.build b :: acc)
         | .error e => fail e
-      else if n = kw "rule" then
-        match parseNamedBlock r with
-        | .ok ((nm, bs), r') => parseTop fuel r' (.rule nm bs :: acc)
+      else if w = kw "rule" then
+        match parseNamedBlock n r with
+        | .ok ((nm, bs), r') => parseTop n fuel r' (.rule nm bs :: acc)
         | .error e => fail e
-      else if n = kw "pool" then
-        match parseNamedBlock r with
-        | .ok ((nm, bs), r') => parseTop fuel r' (.pool nm bs :: acc)
+      else if w = kw "pool" then
+        match parseNamedBlock n r with
+        | .ok ((nm, bs), r') => parseTop n fuel r' (.pool nm bs :: acc)
         | .error e => fail e
-      else if n = kw "default" then
-        match readPaths (r.length + 1) r [] with
+      else if w = kw "default" then
+        match readPaths n n r [] with
         | .ok ([], _) => fail .expectedPath
         | .ok (ps, r') =>
-          match expectNewline r' with
-          | .ok r'' => parseTop fuel r'' (.dflt ps :: acc)
+          match expectNewline n r' with
+          | .ok r'' => parseTop n fuel r'' (.dflt ps :: acc)
           | .error e => fail e
         | .error e => fail e
-      else if n = kw "include" || n = kw "subninja" then
-        match readPath r with
+      else if w = kw "include" || w = kw "subninja" then
+        match readPath n r with
         | .ok (p, r') =>
-          match expectNewline r' with
-          | .ok r'' => parseTop fuel r'' (.incl p (n = kw "subninja") :: acc)
+          match expectNewline n r' with
+          | .ok r'' => parseTop n fuel r'' (.incl p (w = kw "subninja") :: acc)
           | .error e => fail e
         | .error e => fail e
       else
-        match parseLet s with
-        | .ok ((k, v), r') => parseTop fuel r' (.letS k v :: acc)
+        match parseLet n s with
+        | .ok ((k, v), r') => parseTop n fuel r' (.letS k v :: acc)
         | .error e => fail e
     | _ => fail .unexpectedToken
 
 /-- parse a manifest text; the error carries the number of characters left at the failing statement -/
-def parse (s : Str) : Except (PErr × Nat) (List Stmt) := parseTop (s.length + 1) s []
+def parse (s : Str) : Except (PErr × Nat) (List Stmt) :=
+  let n := s.length + 1
+  parseTop n n s []
 
 /-! ### path canonicalisation (`util.cc:CanonicalizePath`, POSIX) -/
 
@@ -426,12 +428,19 @@ def loadStmts : List Stmt → Manifest → Except LErr Manifest
 
 def load (ss : List Stmt) : Except LErr Manifest := loadStmts ss {}
 
-/-! ### graph extraction -/
+/-! ### graph extraction
 
-def BuildStmt.edge (b : BuildStmt) : Edge Str :=
-  { rule := b.rule, outs := b.outs ++ b.implOuts, ins := b.ins ++ b.implIns ++ b.orderIns, vals := b.vals }
+Graph nodes are the canonicalised paths as `String`s (`String.ofList` of the character list): the checker and its
+theorems are generic in the node type, and byte-array strings compare by `memcmp`, which keeps the quadratic
+list algorithms fast on manifests whose paths share long prefixes. -/
 
-def Manifest.graph (m : Manifest) : Graph Str :=
-  { rules := m.rules.map (·.1), edges := m.builds.map BuildStmt.edge, defaults := m.defaults }
+def nodes (l : List Str) : List String := l.map String.ofList
+
+def BuildStmt.edge (b : BuildStmt) : Edge String :=
+  { rule := b.rule, outs := nodes (b.outs ++ b.implOuts), ins := nodes (b.ins ++ b.implIns ++ b.orderIns),
+    vals := nodes b.vals }
+
+def Manifest.graph (m : Manifest) : Graph String :=
+  { rules := m.rules.map (·.1), edges := m.builds.map BuildStmt.edge, defaults := nodes m.defaults }
 
 end MesonModel.Ninja
